@@ -107,20 +107,58 @@ func wireLength(w *World, wc *wireCtx, r *Report) {
 	chk(kindDependent == "", "the target is linked whatever kind of field it is", "whether the target receives LenAttr depends on a test of the target's own kind (branch at "+kindDependent+"): a target of the other kind is never back-patched and the length stays 0")
 	chk(lenOfStore, "the length field is marked with a LengthOfAttribute", "the length field itself no longer receives a LengthOfAttribute")
 	chk(targetStore, "the length field's target is the declared field, found by a checked lookup", "TragetField is not assigned from a checked (found) lookup of the declared name")
-	// both spellings construct a LengthFieldAttribute with a target taken from the attribute's `from` label
-	nFrom := 0
+	// both spellings take the target's name from the attribute's `from` label: in each of the two contexts that can hold a
+	// lengthOfAttribute, the node obtained from the LengthOfAttribute() accessor reaches a GetFrom() call (directly, or as an argument of
+	// a parser helper that reads it)
+	ctxs := w.ctxTable()
+	var reachesFrom func(v ssa.Value, depth int) bool
+	reachesFrom = func(v ssa.Value, depth int) bool {
+		if v == nil || v.Referrers() == nil || depth > 5 {
+			return false
+		}
+		for _, ref := range *v.Referrers() {
+			switch x := ref.(type) {
+			case *ssa.Call:
+				if recv, ai, ok := w.accessorOf(x, ctxs); ok && ai.Name == "GetFrom" && stripIdentity(recv) == stripIdentity(v) {
+					return true
+				}
+				if f := x.Call.StaticCallee(); f != nil && f.Blocks != nil && f.Pkg == w.Parser {
+					for i, a := range x.Call.Args {
+						if a == v && i < len(f.Params) && reachesFrom(f.Params[i], depth+1) {
+							return true
+						}
+					}
+				}
+			case *ssa.Phi, *ssa.MakeInterface, *ssa.ChangeInterface, *ssa.ChangeType, *ssa.TypeAssert:
+				if reachesFrom(x.(ssa.Value), depth+1) {
+					return true
+				}
+			case *ssa.Store:
+				if al, ok := x.Addr.(*ssa.Alloc); ok && x.Val == v && al.Referrers() != nil {
+					for _, r2 := range *al.Referrers() {
+						if ld, ok := r2.(*ssa.UnOp); ok && ld.Op == token.MUL && reachesFrom(ld, depth+1) {
+							return true
+						}
+					}
+				}
+			}
+		}
+		return false
+	}
+	fromIn := map[string]bool{}
 	for _, fn := range parsePhaseFuncs(w) {
 		forEachInstr(fn, func(b *ssa.BasicBlock, ins ssa.Instruction) {
 			c, ok := ins.(*ssa.Call)
 			if !ok {
 				return
 			}
-			if _, ai, ok := w.accessorOf(c, w.ctxTable()); ok && ai.Ctx == "LengthOfAttributeContext" && ai.Name == "GetFrom" {
-				nFrom++
+			if _, ai, ok := w.accessorOf(c, ctxs); ok && ai.Name == "LengthOfAttribute" && reachesFrom(c, 0) {
+				fromIn[ai.Ctx] = true
 			}
 		})
 	}
-	chk(nFrom >= 2, "inline and prefixed @lengthOf both read the attribute's target name", fmt.Sprintf("expected both spellings to read LengthOfAttribute.from, found %d reads", nFrom))
+	nFrom := len(fromIn)
+	chk(nFrom >= 2, "inline and prefixed @lengthOf both read the attribute's target name", fmt.Sprintf("expected the lengthOfAttribute node of both spellings (field attribute, length field declaration) to have its `from` label read, found that for %d context(s): %v", nFrom, sortedBoolKeys(fromIn)))
 
 	// (2) cells
 	const ruleCell = "C04/placeholder-and-backpatch"
